@@ -53,6 +53,11 @@ func (w *walker) step(e Ev) {
 		w.terminate(e.T, "close")
 	case "sockdie":
 		w.terminate(e.T, "socket died")
+	case "out":
+		// a connect request the socket refuses ends the (re)connect attempt at once, and with it the tunnel
+		if e.Svc == "ConnReq" && e.Err != "" && (w.ph == phReconnecting || w.ph == phConnected) {
+			w.terminate(e.T, "connect request could not be sent")
+		}
 	case "conn<":
 		if e.Err != "" {
 			w.terminate(e.T, "connect failed: "+e.Err)
